@@ -42,12 +42,16 @@ structure Params where
   nbsOff : Nat         -- NUM_BITS_SET_OFFSET_BYTES
   bitsOff : Nat        -- BIT_ARRAY_OFFSET_BYTES
   maxBits : Nat        -- MAX_FILTER_SIZE_BITS
+  /-- shape of the readers (`deserialize`, `wrap`, `writable_wrap`), DSGen `bloom_READER_STRICT`: `true` = preamble longs must
+  match the empty flag, zero `num_hashes` / `num_longs` refused, `num_longs << 6` / `<< 3` in 64 bits, bit-array length checked
+  for wraps too; `false` = the pinned readers (none of these) -/
+  strict : Bool := false
 deriving DecidableEq, Repr
 
 /-- the published layout -/
 def refParams : Params :=
   { dirty := 2 ^ 64 - 1, preEmpty := 3, preStd := 4, family := 21, serVer := 1, emptyMask := 4,
-    nbsOff := 24, bitsOff := 32, maxBits := (2147483647 - 32) * 8 }
+    nbsOff := 24, bitsOff := 32, maxBits := (2147483647 - 32) * 8, strict := false }
 
 structure Fix where
   /-- D13 repair: `internal_update` writes DIRTY_BITS_VALUE through to writable wrapped memory -/
@@ -304,6 +308,12 @@ inductive Parsed where
   | full (cap nh seed nbs nl : Nat)           -- standard image
 deriving Repr, DecidableEq
 
+/-- `num_longs << 6`: 64-bit in the strict readers, 32-bit (wrapping) in the pinned ones -/
+def capOf (P : Params) (nl : Nat) : Nat := if P.strict then nl * 64 else (nl * 64) % 2 ^ 32
+
+/-- `num_longs << 3` -/
+def nbytesOf (P : Params) (nl : Nat) : Nat := if P.strict then nl * 8 else (nl * 8) % 2 ^ 32
+
 def parseImage (P : Params) (b : Block) : Parsed :=
   let L := b.len
   let X := b.val
@@ -312,17 +322,21 @@ def parseImage (P : Params) (b : Block) : Parsed :=
   if pre < P.preEmpty || pre > P.preStd then .refuse else
   if getField X 8 8 != P.serVer then .refuse else
   if getField X 16 8 != P.family then .refuse else
+  -- strict readers: preamble longs must match the empty flag
+  if P.strict && pre != (if getField X 24 8 &&& P.emptyMask != 0 then P.preEmpty else P.preStd) then .refuse else
   if L < pre * 8 then .refuse else
   let nh := getField X 32 16
   let seed := getField X 64 64
   let nl := getField X 128 32
-  if getField X 24 8 &&& P.emptyMask != 0 then .emptyImg ((nl * 64) % 2 ^ 32) nh seed
+  -- strict readers: zero hash functions / zero-length bit array
+  if P.strict && (nh == 0 || nl == 0) then .refuse else
+  if getField X 24 8 &&& P.emptyMask != 0 then .emptyImg (capOf P nl) nh seed
   else if L < 32 then .outside
-  else if (nl * 64) % 2 ^ 32 == 0 then .outside
-  else .full ((nl * 64) % 2 ^ 32) nh seed (getField X 192 64) nl
+  else if capOf P nl == 0 then .outside
+  else .full (capOf P nl) nh seed (getField X 192 64) nl
 
 def deserFilter (P : Params) (X cap nh seed nbs nl : Nat) : Filter :=
-  { seed := seed, numHashes := nh, capBits := cap, ref := .owned (getField X 256 (8 * ((nl * 8) % 2 ^ 32))),
+  { seed := seed, numHashes := nh, capBits := cap, ref := .owned (getField X 256 (8 * nbytesOf P nl)),
     nbs := nbs, dirty := nbs == P.dirty, readOnly := false }
 
 def wrapFilter (P : Params) (m X cap nh seed nbs : Nat) (ro : Bool) : Filter :=
@@ -344,9 +358,11 @@ def opWrap (P : Params) (w : World) (k : WrapKind) (m v : Nat) : World × Out :=
       else if badSize P numBits nh then (w, .thrw)
       else (w.setFilter v (mkOwned numBits nh seed), .ok)
     | .full cap nh seed nbs nl =>
+      -- strict readers: the bit array must be inside the buffer whether it is copied or wrapped
+      if P.strict && decide (b.len - 32 < nbytesOf P nl) then (w, .thrw) else
       match k with
       | .deser =>
-        if b.len - 32 < (nl * 8) % 2 ^ 32 then (w, .thrw)
+        if b.len - 32 < nbytesOf P nl then (w, .thrw)
         else (w.setFilter v (deserFilter P b.val cap nh seed nbs nl), .ok)
       | .wrap =>
         if b.len < 32 + cap / 8 then (w, .oob) else (w.setFilter v (wrapFilter P m b.val cap nh seed nbs true), .ok)
